@@ -53,10 +53,18 @@ func (s *SCEVAddRec) IsLoopInvariant(loop *Loop) bool {
 	return s.Start.IsLoopInvariant(loop) && s.Step.IsLoopInvariant(loop)
 }
 func (s *SCEVAddRec) String() string {
-	return fmt.Sprintf("{%s, +, %s}", s.Start.String(), s.Step.String())
+	return fmt.Sprintf("{%s, +, %s}%s", s.Start.String(), s.Step.String(), s.loopSuffix())
 }
 func (s *SCEVAddRec) StringWithRenamer(r Renamer) string {
-	return fmt.Sprintf("{%s, +, %s}", s.Start.StringWithRenamer(r), s.Step.StringWithRenamer(r))
+	return fmt.Sprintf("{%s, +, %s}%s", s.Start.StringWithRenamer(r), s.Step.StringWithRenamer(r), s.loopSuffix())
+}
+
+// loopSuffix names the loop whose iterations the recurrence counts (see Loop.Label).
+func (s *SCEVAddRec) loopSuffix() string {
+	if s.Loop == nil || s.Loop.Label == "" {
+		return ""
+	}
+	return "@" + s.Loop.Label
 }
 func (s *SCEVAddRec) Name() string                  { return "scev_addrec" }
 func (s *SCEVAddRec) Type() types.Type              { return types.Typ[types.Int] }
